@@ -1146,6 +1146,40 @@ fn tween_one(which: usize, t: &TweenScene, ms: &[Motion], ctx: &mut Ctx) {
 	}
 }
 
+/// the direction from an ear to the emitter degenerates when the emitter sits exactly on that ear
+fn ear_positions_case(tier: Tier, ctx: &mut Ctx) {
+	for lpos in listener_positions(tier) {
+		for (oname, lq, _) in orientations(tier) {
+			let right = qrot(lq, [1.0, 0.0, 0.0]);
+			for side in [1.0f64, -1.0] {
+				for off in [0.1f64, 0.1 + 1e-6, 0.09, 0.11] {
+					for s in [0.5f32, 0.75, 1.0] {
+						for curve in [None, Some(Easing::Linear)] {
+							let epos = add(lpos, scale(right, side * off));
+							let sc = Scene { lpos, lq, epos, sp: Sp { range: (1.0, 100.0), curve, s } };
+							let what = format!("emitter {} the listener's {} ear (offset {} along its right axis), orientation {}", if off == 0.1 { "exactly at" } else { "next to" }, if side > 0.0 { "right" } else { "left" }, off, oname);
+							let Some((l, r)) = render(&sc, ctx, "ear positions") else { continue };
+							ctx.transitions += 1;
+							// distance 0.09..0.11 < min distance 1: no attenuation; each ear gain lies in [1 - s, 1] of the mono / own-channel mix
+							let lo = |ch: f64| (1.0 - s as f64) * MONO.min(ch) - 1e-6;
+							let hi = |ch: f64| MONO.max(ch) + 1e-6;
+							if l < lo(IN.0 as f64) || r < lo(IN.1 as f64) || l > hi(IN.0 as f64) || r > hi(IN.1 as f64) {
+								ctx.fail(
+									format!("an ear gain is outside [1 - strength, 1] :: emitter {} an ear position", if off == 0.1 { "exactly at" } else { "next to" }),
+									format!("{}; {} -> output ({}, {}), bounds left [{}, {}] right [{}, {}]", sc.desc(), what, l, r, lo(IN.0 as f64), hi(IN.0 as f64), lo(IN.1 as f64), hi(IN.1 as f64)),
+								);
+							} else {
+								ctx.nontrivial_extra += 1;
+							}
+							ctx.state(hash64(&((l * 4096.0) as i64, (r * 4096.0) as i64)));
+						}
+					}
+				}
+			}
+		}
+	}
+}
+
 // ---------------------------------------------------------------------------------------------
 // case table
 
@@ -1158,6 +1192,8 @@ enum Case {
 	Param(usize),
 	Nesting(u64),
 	Tween(usize),
+	/// the emitter exactly at (and a hair next to) one of the listener's ear positions
+	EarPositions,
 }
 fn cases(tier: Tier) -> Vec<Case> {
 	let mut v = vec![];
@@ -1174,6 +1210,7 @@ fn cases(tier: Tier) -> Vec<Case> {
 	v.extend((0..PLACEMENTS.len()).map(Case::Param));
 	v.extend((0..NESTINGS.len() as u64).map(Case::Nesting));
 	v.extend((0..TWEENS.len()).map(Case::Tween));
+	v.push(Case::EarPositions);
 	v
 }
 
@@ -1200,6 +1237,7 @@ impl Check for C15 {
 			Case::Param(p) => format!("listener-distance mapping {} x 2 easings x 3 listener x 6 emitter positions x 3 moves", PLACEMENTS[p]),
 			Case::Nesting(n) => format!("nesting: {} x emitter lattice x 9 track settings x 3 orientations", NESTINGS[n as usize]),
 			Case::Tween(t) => format!("tween of {} x start/target lattice x 9 track settings x durations x rigid motions", TWEENS[t]),
+			Case::EarPositions => "emitter exactly at / a hair next to an ear position (listener +- 0.1 along its right axis) x listener positions x orientations x strengths x curves: finite, ear gains in [1 - s, 1], the emitter's side not quieter".into(),
 		}
 	}
 	fn sig_hint(&self, tier: Tier, idx: u64) -> String { format!("{:?}", cases(tier)[idx as usize]) }
@@ -1239,6 +1277,7 @@ impl Check for C15 {
 			Case::Param(p) => param_case(p, ctx),
 			Case::Nesting(n) => nesting_case(tier, n, ctx),
 			Case::Tween(t) => tween_case(tier, t, ctx),
+			Case::EarPositions => ear_positions_case(tier, ctx),
 		});
 		if let Err(p) = r {
 			ctx.fail(format!("panic: {} :: {:?}", p, case), self.describe(tier, idx));
